@@ -854,4 +854,5 @@ func runC03(c *Ctx) {
 			}
 		}
 	}
+	c03WireClose(c)
 }
